@@ -23,6 +23,7 @@ probe method, the standard methods and the lock handler:
   phantom-execution   something is executed that was never called
   second-thread       more than one thread executes requests of the object
   execution-outside-worker  a method body of the object runs outside the worker's handling of that very request
+  (overlap / second-thread also cover the life-cycle hook `release_rpc_object` the framework calls on the object)
   live-object-handed-out    what a caller holds as call target (proxy from make_*/get_*/make_proxy, `with p as x`, an RPC
                             return value) is not a proxy / is the live object
   executed-after-removal, executed-although-error-reply   (object removal)
@@ -70,15 +71,37 @@ def probe_classes():
             RUN.live[oid] = self
 
         @rpc_method
-        def hit(self, c, via, seq):
+        def hit(self, c, via, seq, spin=0):
             me = _me()
             _log("enter", me, self._oid, c, via, seq)
             self._inside += 1          # every line below is a yield point (trace_funcs)
             depth = self._inside
+            for _ in range(spin):      # a method that takes a while: stays "in progress" for `spin` more scheduler steps
+                D.SCHED.yield_point("probe.park")
             mark = (c, via, seq)
             self._inside -= 1
             _log("exit", me, self._oid, c, via, seq, depth)
             return mark
+
+        @rpc_method
+        def touch(self):
+            """a method of the object that its own life-cycle hook calls (as QMI_TaskRunner / Montana_Cryostation do)"""
+            self._inside += 1
+            depth = self._inside
+            state = self._oid
+            self._inside -= 1
+            return depth, state
+
+        def release_rpc_object(self):
+            """life-cycle hook called by the framework when the object is removed / its context stops"""
+            me = _me()
+            _log("hook-enter", me, self._oid, "release_rpc_object")
+            self._inside += 1
+            depth = self._inside
+            if self._oid % 2 == 0:     # some hooks use other methods of the same object
+                depth = max(depth, self.touch()[0] - 1)      # nested call from the hook itself: one level deeper
+            self._inside -= 1
+            _log("hook-exec", me, self._oid, "release_rpc_object", depth)
 
         @rpc_method
         def peer(self):
@@ -96,7 +119,8 @@ def probe_classes():
             QMI_Instrument.__init__(self, context, name)
             self._probe_init(oid)
 
-    _PROBE = {"obj": Probe, "instr": ProbeInstr, "traced": [_ProbeMethods.hit, _ProbeMethods.peer]}
+    _PROBE = {"obj": Probe, "instr": ProbeInstr,
+              "traced": [_ProbeMethods.hit, _ProbeMethods.peer, _ProbeMethods.touch, _ProbeMethods.release_rpc_object]}
     return _PROBE
 
 
@@ -498,8 +522,8 @@ def taps():
 # scenarios
 # ---------------------------------------------------------------------------
 
-CALL_KINDS = ("b", "n", "t", "g", "gn", "s", "sn", "q", "L", "U", "F", "P", "E", "X")      # everything that is a request to the object
-NONBLOCKING = ("n", "gn", "sn")
+CALL_KINDS = ("b", "n", "k", "t", "g", "gn", "s", "sn", "q", "L", "U", "F", "P", "E", "X")      # everything that is a request to the object
+NONBLOCKING = ("n", "k", "gn", "sn")
 
 
 def op_via(cal, op) -> int:
@@ -509,7 +533,7 @@ def op_via(cal, op) -> int:
 
 def gen_scenario(rng, big: bool = False) -> dict:
     """contexts 1..3 (context 0 always hosts object 0), objects 1..2, callers 1..6.  A caller's program is a list of
-    [kind, o] or [kind, o, via]:  b/n = blocking / non-blocking `hit`;  t = blocking `hit` with a tiny `rpc_timeout` (the
+    [kind, o] or [kind, o, via]:  b/n = blocking / non-blocking `hit`;  k = non-blocking `hit` that stays in progress for 40 more scheduler steps;  t = blocking `hit` with a tiny `rpc_timeout` (the
     caller may give up and go on while the request is still under way);  g/gn = `get_name`;  s/sn = `get_signals`;
     q = `is_locked()`;  L/U/F = `lock()` / `unlock()` / `force_unlock()`;  and [w, j] = wait for the j-th non-blocking call.
     `via` = the context whose proxy is used (a thread may alternate between a local and a peer proxy of one object).
@@ -544,7 +568,7 @@ def gen_scenario(rng, big: bool = False) -> dict:
 
         def nb_kind():
             r = rng.random()
-            return "n" if r < 0.7 else ("gn" if r < 0.85 else "sn")
+            return "n" if r < 0.6 else ("k" if r < 0.7 else ("gn" if r < 0.85 else "sn"))
 
         for _ in range(rng.randint(1, 6 if big else 4)):
             o = pick_obj()
@@ -708,7 +732,7 @@ def make_body(scn):
                 return None
 
             def check(kind, k, o, seq, r):
-                if kind in ("b", "n", "t"):
+                if kind in ("b", "n", "k", "t"):
                     return tuple(r) == (ci, k, seq)
                 if kind in ("g", "gn"):
                     return r == f"{PROBE_PREFIX}{o}"
@@ -763,14 +787,15 @@ def make_body(scn):
                     if kind in NONBLOCKING and hasattr(p, "rpc_nonblocking"):
                         try:
                             nb = p.rpc_nonblocking
-                            fut = (nb.hit(ci, k, seq) if kind == "n" else nb.get_name() if kind == "gn" else nb.get_signals())
+                            fut = (nb.hit(ci, k, seq) if kind == "n" else nb.hit(ci, k, seq, 40) if kind == "k"
+                                   else nb.get_name() if kind == "gn" else nb.get_signals())
                             futs.append([fut, (kind, k, o, seq), False])
                         except D.SchedAbort:
                             raise
                         except Exception as e:  # noqa
                             bad.append((kind, ci, k, o, seq, f"{type(e).__name__}: {e}"))
                         continue
-                    fn = {"b": lambda: p.hit(ci, k, seq), "n": lambda: p.hit(ci, k, seq),
+                    fn = {"b": lambda: p.hit(ci, k, seq), "n": lambda: p.hit(ci, k, seq), "k": lambda: p.hit(ci, k, seq, 40),
                           "t": lambda: p.hit(ci, k, seq, rpc_timeout=0.001),
                           "g": lambda: p.get_name(), "gn": lambda: p.get_name(), "s": lambda: p.get_signals(),
                           "sn": lambda: p.get_signals(), "q": lambda: p.is_locked(),
@@ -976,6 +1001,8 @@ def oracle(scn, events):
     started = set()
     threads = collections.defaultdict(list)
     removed = set()
+    worker = {}
+    in_hook = collections.defaultdict(bool)
     secondary = None
     for i, ev in enumerate(events):
         if ev[0] == "call":
@@ -997,6 +1024,22 @@ def oracle(scn, events):
                 return ("execution-outside-worker", route(k, o), what,
                         f"event {i}: {what}() of object {o} runs in thread {th} outside the worker's handling of that "
                         f"request (worker is handling: {cur})")
+        elif ev[0] == "start":
+            worker[ev[1]] = ev[2]
+        elif ev[0] in ("hook-enter", "hook-exec"):
+            # a life-cycle hook of the object (release_rpc_object) is code of the object like its methods: it must run in
+            # the object's worker thread and never while a request of the object is executing
+            _, th, o, name = ev[:4]
+            if inside[o]:
+                return ("overlap", "local", name,
+                        f"event {i}: {name}() of object {o} runs in {th} while {inside[o]} is executing on the object")
+            if ev[0] == "hook-exec" and ev[4] != 1:
+                return ("overlap", "local", name, f"event {i}: {name}() of object {o} saw depth {ev[4]}")
+            w_th = worker.get(o) or (threads[o][0] if threads[o] else None)
+            if w_th is not None and th != w_th:
+                return ("second-thread", "local", name,
+                        f"event {i}: {name}() of object {o} runs in {th}, the object's worker thread is {w_th}")
+            in_hook[o] = (ev[0] == "hook-enter")
         elif ev[0] == "removed":
             removed.add(ev[1])
         elif ev[0] == "result":
@@ -1010,9 +1053,10 @@ def oracle(scn, events):
             if key == "?":
                 return ("phantom-execution", "unknown", cls, f"event {i}: a request ({what}) executes that no call accounts for")
             c, k, o, seq = key
-            if inside[o]:
+            if inside[o] or in_hook[o]:
                 return ("overlap", route(k, o), cls,
-                        f"event {i}: {key} ({what}) starts in {th} while {inside[o]} is executing on object {o}")
+                        f"event {i}: {key} ({what}) starts in {th} while "
+                        f"{inside[o] or 'release_rpc_object()'} is executing on object {o}")
             inside[o].append((key, th, what))
             if o in removed:
                 return ("executed-after-removal", route(k, o), cls,
@@ -1116,6 +1160,12 @@ FIXED_SCENARIOS_RAW = [
                  {"ctx": 0, "prog": [["b", 1], ["n", 0], ["n", 1], ["b", 0], ["n", 1]]}]},
     {"contexts": 1, "objects": [0], "removals": [[0, 0]],
      "callers": [{"ctx": 0, "prog": [["n", 0], ["n", 0], ["b", 0]]}, {"ctx": 0, "prog": [["b", 0], ["b", 0]]}]},
+    # … with a long-running method in progress at the moment of remove_rpc_object (the release hook must wait for it)
+    {"contexts": 2, "objects": [0, 0], "objtypes": ["obj", "instr"], "removals": [[0, 20], [1, 40]],
+     "callers": [{"ctx": 0, "prog": [["k", 0], ["k", 1], ["k", 0], ["k", 1], ["n", 0], ["n", 1]]},
+                 {"ctx": 1, "prog": [["k", 1], ["k", 0], ["n", 1], ["n", 0]]}]},
+    {"contexts": 1, "objects": [0], "removals": [[0, 5]],
+     "callers": [{"ctx": 0, "prog": [["k", 0], ["k", 0], ["b", 0]]}]},
     # blocking calls given up by a tiny rpc_timeout while still under way, followed by further calls of the same thread
     {"contexts": 2, "objects": [0], "eager": 0.5,
      "callers": [{"ctx": 1, "prog": [["t", 0], ["t", 0], ["n", 0], ["t", 0], ["b", 0]]},
@@ -1308,7 +1358,7 @@ class C03(Prop):
             for op in cal["prog"]:
                 if op[0] == "w":
                     continue
-                res.count({"b": "calls_hit_blocking", "t": "calls_hit_blocking_with_tiny_timeout", "n": "calls_hit_nonblocking", "g": "calls_get_name_blocking",
+                res.count({"b": "calls_hit_blocking", "t": "calls_hit_blocking_with_tiny_timeout", "n": "calls_hit_nonblocking", "k": "calls_long_running_nonblocking", "g": "calls_get_name_blocking",
                            "gn": "calls_get_name_nonblocking", "s": "calls_get_signals_blocking",
                            "sn": "calls_get_signals_nonblocking", "q": "calls_is_locked", "L": "calls_lock",
                            "U": "calls_unlock", "F": "calls_force_unlock", "P": "calls_returning_a_proxy",
@@ -1333,6 +1383,16 @@ class C03(Prop):
         res.count("requests_refused_unknown_destination", sum(1 for e in events if e[0] == "lookup" and not e[3]))
         res.count("requests_refused_already_stopped", sum(1 for e in events if e[0] == "push-refused"))
         res.count("requests_executed", sum(1 for e in events if e[0] == "exec-exit"))
+        res.count("release_hooks_run", sum(1 for e in events if e[0] == "hook-exec"))
+        busy, n_busy = collections.defaultdict(int), 0
+        for e in events:
+            if e[0] == "exec-enter" and e[2] != "?":
+                busy[e[2][2]] += 1
+            elif e[0] == "exec-exit" and e[2] != "?":
+                busy[e[2][2]] -= 1
+            elif e[0] == "removing" and busy[e[1]] > 0:
+                n_busy += 1
+        res.count("removals_started_while_a_method_was_executing", n_busy)
         routes = collections.defaultdict(set)
         for e in events:
             if e[0] == "call":
